@@ -13,7 +13,7 @@ import random
 
 from . import common, gen, valgen, valcheck
 
-C07_FILES = ["Properties/C07.v", "Proofs/ValidateProofs.v", "Proofs/ValidateRules.v", "Proofs/ValidateValues.v", "Proofs/ValidateSites.v", "Proofs/ValidateWalk.v", "Proofs/ValidateTree.v", "Proofs/SingleRoot.v", "Proofs/SingleRootSpreads.v", "Proofs/ValidateSpreads.v", "Proofs/ValidateScopes.v", "Proofs/ValidatePure.v", "Proofs/ValidateVars.v", "Proofs/FieldLookup.v", "Proofs/Wiring.v"]
+C07_FILES = ["Properties/C07.v", "Properties/C07Findings.v", "Proofs/ValidateProofs.v", "Proofs/ValidateRules.v", "Proofs/ValidateValues.v", "Proofs/ValidateSites.v", "Proofs/ValidateWalk.v", "Proofs/ValidateTree.v", "Proofs/SingleRoot.v", "Proofs/SingleRootSpreads.v", "Proofs/ValidateSpreads.v", "Proofs/ValidateScopes.v", "Proofs/ValidatePure.v", "Proofs/ValidateVars.v", "Proofs/FieldLookup.v", "Proofs/Wiring.v"]
 
 # recorded findings: a failing document is attributed to a finding only when the specification model
 # says it breaks exactly that rule AND the finding's region predicate (evaluated in Coq) holds
@@ -36,7 +36,8 @@ def witness_schema():
                                                 {"name": "l", "type": L(N("In1")), "default": None}]}
     types["Named"] = {"kind": "INTERFACE", "fields": [{"name": "name", "type": N("String"), "args": []}]}
     types["Dog"] = {"kind": "OBJECT", "interfaces": ["Named"], "fields": [
-        {"name": "name", "type": N("String"), "args": []}, {"name": "bark", "type": N("Int"), "args": []}]}
+        {"name": "name", "type": N("String"), "args": [{"name": "lang", "type": N("String"), "default": None}]},
+        {"name": "bark", "type": N("Int"), "args": []}]}
     types["Cat"] = {"kind": "OBJECT", "interfaces": ["Named"], "fields": [
         {"name": "name", "type": N("String"), "args": []}, {"name": "meow", "type": N("Int"), "args": []}]}
     types["Rock"] = {"kind": "OBJECT", "interfaces": [], "fields": [{"name": "weight", "type": N("Int"), "args": []}]}
@@ -62,6 +63,10 @@ WITNESSES = [
     (KF_NESTED, "all-variable-usages-are-allowed", "query ($s: [Boolean]) { echo(l: [$s]) }", {"s": [True]}),
     (KF_NESTED, "all-variable-usages-are-allowed", "query ($s: Int) { dog @tag(i: {y: $s}) { name } }", {"s": 1}),
     (KF_IFACE, "argument-names", "{ named { __typename(x: 1) } }", {}),
+    # an argument only an implementation declares, used where the parent type is the interface
+    (None, "argument-names", '{ named { name(lang: "fr") } }', {}),
+    (None, "argument-names", '{ dog { ... on Named { name(lang: "fr") } } }', {}),
+    (None, "argument-names", '{ named { ...F } } fragment F on Named { name(lang: null) }', {}),
     # repaired defects (fix: commits): must be refused now
     (None, "fragment-spread-is-possible", "{ dog { ... on Cat { meow } } }", {}),
     (None, "fragment-spread-is-possible", "{ pet { ... on Dog { ... on Cat { meow } } } }", {}),
@@ -120,7 +125,7 @@ def main(tier_, replay=None):
     if replay:
         return valcheck.replay("C07", replay)
     seed = common.seed()
-    b = common.build(["Properties/C07.vo", "Model/RunValidate.vo", "Model/StdScalars.vo"])
+    b = common.build(["Properties/C07.vo", "Properties/C07Findings.vo", "Model/RunValidate.vo", "Model/StdScalars.vo"])
     gate = common.grep_gate()
     proofs_ok = b["ok"] and not gate
     engine_env.setup()
@@ -184,6 +189,9 @@ def main(tier_, replay=None):
                            "engine_errors": o["response"].get("errors"), "rewrite": "%s: %s" % (it["rule"], it["where"])}, no_input=True)
     nob, names = common.count_obligations(C07_FILES)
     assum = common.assumptions("Properties/C07.v") if b["ok"] else {"closed": 0, "axioms": ["build failed"]}
+    if b["ok"]:
+        a2 = common.assumptions("Properties/C07Findings.v")
+        assum = {"closed": assum["closed"] + a2["closed"], "axioms": assum["axioms"] + a2["axioms"]}
     common.write_evidence("C07", tier_, "proof", {
         "obligations": nob, "discharged": nob if proofs_ok else 0, "checker_cmd": "make Properties/C07.vo",
         "trusted_base": common.TRUSTED_BASE + [
